@@ -15,6 +15,7 @@ import (
 	"fmt"
 	"net/http"
 	"strings"
+	"sync"
 	"time"
 
 	jc "github.com/SermoDigital/jose/crypto"
@@ -79,6 +80,7 @@ func (cfg Config) LogFields() log.Fields {
 
 type hook struct {
 	cfg        Config
+	mu         sync.RWMutex // guards publicKeys
 	publicKeys map[string]crypto.PublicKey
 	closing    chan struct{}
 }
@@ -137,7 +139,9 @@ func (h *hook) updateKeys() error {
 		}
 		keys[parsedJWK.Kid] = publicKey
 	}
+	h.mu.Lock()
 	h.publicKeys = keys
+	h.mu.Unlock()
 
 	log.Debug("successfully fetched JWK Set")
 	return nil
@@ -168,7 +172,11 @@ func (h *hook) HandleAnnounce(ctx context.Context, req *bittorrent.AnnounceReque
 		return ctx, ErrMissingJWT
 	}
 
-	if err := validateJWT(req.InfoHash, []byte(jwtParam), h.cfg.Issuer, h.cfg.Audience, h.publicKeys); err != nil {
+	h.mu.RLock()
+	publicKeys := h.publicKeys
+	h.mu.RUnlock()
+
+	if err := validateJWT(req.InfoHash, []byte(jwtParam), h.cfg.Issuer, h.cfg.Audience, publicKeys); err != nil {
 		return ctx, ErrInvalidJWT
 	}
 
